@@ -3445,10 +3445,18 @@ static Token *function(Token *tok, Type *basety, VarAttr *attr) {
     if (!fn->is_static && attr->is_static)
       error_tok(tok, "static declaration follows a non-static declaration");
     fn->is_definition = fn->is_definition || equal(tok, "{");
+
+    // [https://www.sigbus.info/n1570#6.7.4p7] A function declared
+    // without "static" is an inline definition only if all of its
+    // file-scope declarations say "inline" without "extern". Otherwise
+    // it is an external definition.
+    if (!scope->next && !fn->is_static_spec && (!attr->is_inline || attr->is_extern))
+      fn->is_static = false;
   } else {
     fn = new_gvar(name_str, ty);
     fn->is_function = true;
     fn->is_definition = equal(tok, "{");
+    fn->is_static_spec = attr->is_static;
     fn->is_static = attr->is_static || (attr->is_inline && !attr->is_extern);
     fn->is_inline = attr->is_inline;
   }
